@@ -279,10 +279,78 @@ def r03_6(ctx):
             o["rule"] = "R03.6"
 
 
+VISITOR_KIND = {
+    "visit_raw_number": ("tag", "RAWNUM_NODE"), "visit_borrowed_raw_number": ("tag", "RAWNUM_NODE"),
+    "visit_str": ("tag", "STR_NODE"), "visit_borrowed_str": ("tag", "STR_NODE"),
+    "visit_array_start": ("tag", "ARR_NODE"), "visit_array_end": ("tag", "ARR_NODE"),
+    "visit_object_start": ("tag", "OBJ_NODE"), "visit_object_end": ("tag", "OBJ_NODE"),
+    "visit_null": ("ctor", "new_null"), "visit_bool": ("ctor", "new_bool"), "visit_i64": ("ctor", "new_i64"),
+    "visit_u64": ("ctor", "new_u64"), "visit_f64": ("ctor", "new_f64"),
+    "visit_key": ("delegate", "visit_str"), "visit_borrowed_key": ("delegate", "visit_borrowed_str"),
+}
+
+
+def r03_7(ctx):
+    """each DocumentVisitor callback builds the node kind it is named after: the raw-number callbacks tag
+    RAWNUM_NODE, the string callbacks STR_NODE, the container callbacks ARR_NODE / OBJ_NODE, the scalar
+    callbacks use the constructor of their own type (followed through same-crate helpers that receive no
+    tag argument)"""
+    prog = ctx.prog()
+    dv = [im for im in prog.impls if im["trait"].endswith("visitor::JsonVisitor") and "DocumentVisitor" in im["self_ty"]]
+    if len(dv) != 1:
+        ctx.fail_closed("R03.7", "impl JsonVisitor for DocumentVisitor")
+        return
+
+    def tags_and_ctors(fid, depth=0, seen=None):
+        seen = seen or set()
+        if fid in seen or depth > 3:
+            return set(), set()
+        seen.add(fid)
+        f = prog.fns.get(fid)
+        if f is None:
+            return set(), set()
+        tags = {o.get("def", "").rsplit("::", 1)[-1] for b, s_, o in f.const_operands() if o.get("def", "").startswith("sonic_rs::value::node::Meta::") and o.get("def", "").endswith("_NODE")}
+        ctors = set()
+        for b, t in f.calls():
+            nm = t["callee"].rsplit("::", 1)[-1]
+            if t["callee"].startswith("sonic_rs::value::node::Value::") and nm.startswith("new_"):
+                ctors.add(nm.replace("_unchecked", ""))
+            if nm.startswith("visit_") and "DocumentVisitor" in t["callee"]:
+                ctors.add("->" + nm)
+            # helpers of the visitor that take no tag: look inside
+            if t["callee"] in prog.fns and "DocumentVisitor" in t["callee"] and not nm.startswith("visit_") and nm not in ("push_node", "push_meta", "index", "nodes"):
+                t2, c2 = tags_and_ctors(t["callee"], depth + 1, seen)
+                # only if the caller passes no tag itself
+                if not tags:
+                    tags |= t2
+                ctors |= c2
+        return tags, ctors
+
+    n = 0
+    for m, (kind, want) in sorted(VISITOR_KIND.items()):
+        fid = dv[0]["methods"].get(m)
+        if fid is None:
+            continue
+        n += 1
+        tags, ctors = tags_and_ctors(fid)
+        f = prog.fns[fid]
+        if kind == "tag":
+            ok = tags == {want}
+            msg = f"{m} tags its node {sorted(tags)} (expected {want})"
+        elif kind == "ctor":
+            ok = want in ctors and not (tags & {"STR_NODE", "RAWNUM_NODE"})
+            msg = f"{m} builds its node with {sorted(ctors)} (expected Value::{want})"
+        else:
+            ok = ("->" + want) in ctors
+            msg = f"{m} delegates to {sorted(c for c in ctors if c.startswith('->'))} (expected {want})"
+        ctx.ob("R03.7", m, ok, f.loc(), msg)
+    ctx.floor("R03.7", "DocumentVisitor callbacks checked", n, 12)
+
+
 def r03_s(ctx):
     """surrogate look-ahead prefix (shared with C09)"""
     from . import c09
     ctx.include(c09.r09_8, 'R03.S')
 
 
-RULES = [("R03.1", r03_1), ("R03.2", r03_2), ("R03.3", r03_3), ("R03.4", r03_4), ("R03.5", r03_5), ("R03.6", r03_6), ("R03.S", r03_s)]
+RULES = [("R03.1", r03_1), ("R03.2", r03_2), ("R03.3", r03_3), ("R03.4", r03_4), ("R03.5", r03_5), ("R03.6", r03_6), ("R03.7", r03_7), ("R03.S", r03_s)]
